@@ -226,6 +226,20 @@ struct Exec {
 };
 
 static Exec * volatile g_exec = 0;
+// the http::context serving the current request: once it is gone the server will never write another byte of
+// this response (a load-independent way to know that an incomplete response stays incomplete)
+static pthread_mutex_t g_ctx_mx = PTHREAD_MUTEX_INITIALIZER;
+static booster::weak_ptr<cppcms::http::context> g_ctx_weak;
+static bool g_ctx_set = false;
+static void note_context(booster::shared_ptr<cppcms::http::context> const &c)
+{
+	pthread_mutex_lock(&g_ctx_mx); g_ctx_weak = c; g_ctx_set = true; pthread_mutex_unlock(&g_ctx_mx);
+}
+static bool context_gone()
+{
+	pthread_mutex_lock(&g_ctx_mx); bool r = g_ctx_set && g_ctx_weak.expired(); pthread_mutex_unlock(&g_ctx_mx);
+	return r;
+}
 static std::string g_body;   // g_body[i] = vfy::F(i)
 
 static cppcms::http::response::io_mode_type mode_of(std::string const &m)
@@ -354,6 +368,7 @@ public:
 	virtual void main(std::string)
 	{
 		Exec &x = *g_exec;
+		note_context(get_context());
 		app_prologue(x,context());
 		for(size_t pc=0;pc<x.prog.size();pc++)
 			app_op(x,context(),x.prog[pc],std::function<void(bool)>());
@@ -367,6 +382,7 @@ public:
 	virtual void main(std::string)
 	{
 		ctx_ = release_context();
+		note_context(ctx_);
 		pc_ = 0;
 		app_prologue(*g_exec,*ctx_);
 		step(true);
@@ -427,16 +443,30 @@ static bool make_pair(bool tcp,int fds[2])
 {
 	if(!tcp)
 		return socketpair(AF_UNIX,SOCK_STREAM,0,fds)==0;
-	int l = socket(AF_INET,SOCK_STREAM,0);
-	struct sockaddr_in a; memset(&a,0,sizeof(a));
-	a.sin_family = AF_INET; a.sin_addr.s_addr = htonl(INADDR_LOOPBACK); a.sin_port = 0;
-	if(bind(l,(struct sockaddr*)&a,sizeof(a))<0 || listen(l,1)<0) { close(l); return false; }
-	socklen_t len = sizeof(a);
-	getsockname(l,(struct sockaddr*)&a,&len);
-	int c = socket(AF_INET,SOCK_STREAM,0);
-	if(connect(c,(struct sockaddr*)&a,sizeof(a))<0) { close(l); close(c); return false; }
+	// one listener for the whole run; the client end binds to a random 127.x.y.z so that the thousands of
+	// connections a run makes never collide with 4-tuples still in TIME_WAIT
+	static int l = -1;
+	static struct sockaddr_in la;
+	static vt::rng ar((uint64_t)getpid()*977u + 12345);
+	if(l < 0) {
+		l = socket(AF_INET,SOCK_STREAM,0);
+		memset(&la,0,sizeof(la));
+		la.sin_family = AF_INET; la.sin_addr.s_addr = htonl(INADDR_LOOPBACK); la.sin_port = 0;
+		if(bind(l,(struct sockaddr*)&la,sizeof(la))<0 || listen(l,8)<0) { close(l); l = -1; return false; }
+		socklen_t len = sizeof(la);
+		getsockname(l,(struct sockaddr*)&la,&len);
+	}
+	int c = -1;
+	for(int attempt=0;attempt<20;attempt++) {
+		c = socket(AF_INET,SOCK_STREAM,0);
+		struct sockaddr_in ca; memset(&ca,0,sizeof(ca));
+		ca.sin_family = AF_INET; ca.sin_port = 0;
+		ca.sin_addr.s_addr = htonl((127u<<24) | ((1+ar(250))<<16) | (ar(250)<<8) | (1+ar(250)));
+		if(bind(c,(struct sockaddr*)&ca,sizeof(ca))==0 && connect(c,(struct sockaddr*)&la,sizeof(la))==0) break;
+		close(c); c = -1;
+	}
+	if(c < 0) return false;
 	int s = accept(l,0,0);
-	close(l);
 	if(s<0) { close(c); return false; }
 	int one = 1; setsockopt(c,IPPROTO_TCP,TCP_NODELAY,&one,sizeof(one));
 	fds[0] = s; fds[1] = c;
@@ -493,7 +523,7 @@ static bool send_all(int fd,std::string const &s)
 }
 
 // ------------------------------------------------------------------------------------------ driver
-static long g_stall_ms = 1500;
+static long g_stall_ms = 400, g_hard_cap_ms = 20000;
 static long g_exec_id = 0;
 static uint64_t g_seed = 1;
 
@@ -521,9 +551,8 @@ static std::string runs_json(std::vector<vfy::Run> const &r)
 
 struct Result { long raw_total; bool hang; bool eof; bool keep; Result() : raw_total(0), hang(false), eof(false), keep(false) {} };
 
-// one request / response on connection c (opened on demand).  `next' = request to send as a probe when a
-// kept-alive response stalls (the server answering it proves it regards the current response as complete)
-static Result run_exec(Exec &x,Conn &c,Sched const &sched,std::string const &sched_text,bool reused,std::string const *probe)
+// one request / response on connection c (opened on demand)
+static Result run_exec(Exec &x,Conn &c,Sched const &sched,std::string const &sched_text,bool reused)
 {
 	Result res;
 	g_exec_id++;
@@ -546,6 +575,7 @@ static Result run_exec(Exec &x,Conn &c,Sched const &sched,std::string const &sch
 	g_sched = sched; g_sched.cum = 0; g_sched.calls = 0; g_sched.ci = 0; g_sock_events = 0;
 	g_target_fd = c.sfd;
 	pthread_mutex_unlock(&g_sched_mx);
+	pthread_mutex_lock(&g_ctx_mx); g_ctx_weak.reset(); g_ctx_set = false; pthread_mutex_unlock(&g_ctx_mx);
 	g_exec = &x;
 	if(!reused) {
 		cppcms::impl::cgi::acceptor *acc = x.proto=="scgi" ? g_acc_scgi.get() : x.proto=="fcgi" ? g_acc_fcgi.get() : g_acc_http.get();
@@ -565,7 +595,7 @@ static Result run_exec(Exec &x,Conn &c,Sched const &sched,std::string const &sch
 	bool hdr_logged = false, gzip = false;
 	size_t body_fed = 0;
 	long last_wire_len = -1, last_wire_raw = 0;
-	bool probed = false, overrun = false;
+	bool overrun = false;
 	long quiet = 0;
 	std::vector<char> buf(1<<16);
 	bool finished = res.hang;
@@ -575,20 +605,22 @@ static Result run_exec(Exec &x,Conn &c,Sched const &sched,std::string const &sch
 		int pr = poll(&p,1,50);
 		if(pr < 0 && errno==EINTR) continue;
 		if(pr == 0) {
-			long before = g_sock_events;
 			quiet += 50;
 			if(quiet < g_stall_ms) continue;
-			// no progress for stall_ms
-			if(!probed && probe && x.ka && d.hdr_done && d.expect_keep()) {
-				logline(vt::J().s("e","Stall").b("probe",true).str());
-				send_all(c.cfd,*probe);
-				probed = true; quiet = 0;
-				continue;
+			// nothing arrived for stall_ms.  Only when the request's context is gone (the server is through with this
+			// request for good) and no write is in flight do we know that the rest will never come.
+			if(context_gone() && g_in_writev==0) {
+				logline(vt::J().s("e","Hang").s("why","server finished the request, response incomplete").b("done",true).b("idle",true).str());
+				res.hang = true;
+				break;
 			}
-			bool idle = loop_idle(500) && g_in_writev==0 && g_sock_events==before;
-			logline(vt::J().s("e","Hang").s("why","no progress").b("done",x.done).b("idle",idle).b("probed",probed).str());
-			res.hang = true;
-			break;
+			if(quiet >= g_hard_cap_ms) {
+				bool idle = loop_idle(500) && g_in_writev==0;
+				logline(vt::J().s("e","Hang").s("why","no progress, request still alive in the server").b("done",false).b("idle",idle).str());
+				res.hang = true;
+				break;
+			}
+			continue;
 		}
 		ssize_t n = ::recv(c.cfd,&buf[0],buf.size(),0);
 		if(n < 0 && (errno==EINTR || errno==EAGAIN)) continue;
@@ -656,7 +688,7 @@ static Result run_exec(Exec &x,Conn &c,Sched const &sched,std::string const &sch
 			logline(vt::J().s("e","Cache").b("present",has).b("same",has && val==d.body).raw("runs",runs_json(cr.runs)).i("len",(long)val.size()).b("gzend",gzend).str());
 		}
 	}
-	res.keep = !res.hang && !res.eof && !overrun && d.closed && d.expect_keep() && !probed;
+	res.keep = !res.hang && !res.eof && !overrun && d.closed && d.expect_keep();
 	if(!res.keep) { close(c.cfd); c.cfd = -1; c.open = false; }
 	flushlog();
 	return res;
@@ -748,7 +780,8 @@ int main(int argc,char **argv)
 	signal(SIGPIPE,SIG_IGN);
 	signal(SIGSEGV,on_crash); signal(SIGBUS,on_crash); signal(SIGABRT,on_crash); signal(SIGFPE,on_crash);
 	g_seed = vt::envl("VERIF_SEED",1);
-	g_stall_ms = vt::envl("VERIF_STALL_MS",1500);
+	g_stall_ms = vt::envl("VERIF_STALL_MS",400);
+	g_hard_cap_ms = vt::envl("VERIF_HARD_CAP_MS",20000);
 	g_out.open();
 	g_body.resize(300*1024);
 	for(size_t i=0;i<g_body.size();i++) g_body[i] = (char)vfy::F(i);
@@ -809,18 +842,17 @@ int main(int argc,char **argv)
 		else scheds.push_back(st);
 		bool nonblocking = x.mode=="async" || x.mode=="async_raw";
 		Conn c;
-		std::string probe = x.proto=="fcgi" ? fcgi_request(x,1) : x.proto=="scgi" ? std::string() : http_request(x);
 		for(size_t si=0;si<scheds.size();si++) {
 			Sched sc = parse_sched(scheds[si]);
 			// with keep-alive the same connection serves two requests: the 2nd one asks to close
 			Exec x1 = x;
 			bool reused = c.open;
-			Result r = run_exec(x1,c,sc,scheds[si],reused,x.ka ? &probe : 0);
+			Result r = run_exec(x1,c,sc,scheds[si],reused);
 			nexec++; if(r.hang) nhang++;
 			if(r.keep) {
 				Exec x2 = x; x2.ka = false;
 				Sched sc2 = parse_sched(scheds[si]);
-				Result r2 = run_exec(x2,c,sc2,scheds[si],true,0);
+				Result r2 = run_exec(x2,c,sc2,scheds[si],true);
 				nexec++; if(r2.hang) nhang++;
 			}
 			if(c.open) { close(c.cfd); c.open = false; }
